@@ -178,6 +178,15 @@ theorem expression_test_case_insensitive (s t : Str) (h : lowerStr s = lowerStr 
     looksLikeExpression s = looksLikeExpression t := by
   rw [← LexL.looksLikeExpression_lower s, ← LexL.looksLikeExpression_lower t, h]
 
+/-- **every documented column and function name, in every documented spelling, passes the lexer's expression test**, so a
+    sign that follows it without a blank ends the name whichever alias is written (`bitrate+1` and `mp3_bitrate+1`,
+    `is_dir-1`, `line_count*2`): decided over the tables regenerated from docs/usage.md on every run (D82 fix: names
+    with an underscore used to be tested piecewise and failed) -/
+theorem documented_names_pass_expression_test :
+    docFieldGroups.all (fun g => g.all looksLikeExpression) = true ∧
+    docFunctionGroups.all (fun g => g.all looksLikeExpression) = true := by
+  constructor <;> decide +kernel
+
 /-! ### quoted literals at the lexer -/
 
 /-- **a quoted literal is one `String` token, whatever it contains** — blanks, commas, brackets, operators,
